@@ -15,7 +15,7 @@ structure OResult where
 def toks (l : String) : List String := (l.splitOn " ").filter (· != "")
 
 /-- (line number, OP tokens, OBS tokens) for every operation of a case, in order. -/
-def opObsPairs (lines : List String) : List (Nat × List String × List String) :=
+def opObsPairsRaw (lines : List String) : List (Nat × List String × List String) :=
   let (acc, cur, _) := lines.foldl (fun (st : List (Nat × List String × List String) × Option (Nat × List String) × Nat) l =>
     let (acc, cur, ln) := st
     if l.startsWith "OP " then
@@ -30,6 +30,22 @@ def opObsPairs (lines : List String) : List (Nat × List String × List String) 
     else (acc, cur, ln + 1)) ([], none, 1)
   let acc := match cur with | some (n, op) => (n, op, []) :: acc | none => acc
   acc.reverse
+
+/-- a host-set call (`partition1_set h0,h1 h1,h2` …) is the single call on every ordered pair of
+    distinct hosts; the oracles only ever see single calls. -/
+def expandSetOp (x : Nat × List String × List String) : List (Nat × List String × List String) :=
+  let (ln, op, obs) := x
+  match op with
+  | ["ctl", name, as, bs] =>
+    if name.endsWith "_set" then
+      let base := (name.dropEnd 4).toString
+      (as.splitOn ",").flatMap (fun a => (bs.splitOn ",").filterMap (fun b =>
+        if a != b then some (ln, ["ctl", base, a, b], obs) else none))
+    else [x]
+  | _ => [x]
+
+def opObsPairs (lines : List String) : List (Nat × List String × List String) :=
+  (opObsPairsRaw lines).flatMap expandSetOp
 
 def hasCoin (lines : List String) : Bool :=
   lines.any (fun l => l == "ORA fail 1" || l.startsWith "ORA repair")
@@ -448,6 +464,12 @@ def c15Step (st : C15St) (x : Nat × List String × List String) : C15St :=
     let used := ((List.range (st.hi - st.lo + 1)).filter (fun i => live.contains (st.lo + i))).length
     (st.hi - st.lo + 1) - used - pending
   match op with
+  | ["ctl", "dnsbulk", _, n] =>
+    (match obs with
+     | "ok" :: kv =>
+       if kvNat kv "distinct" 0 == n.toNat?.getD 0 then st
+       else st.fail ln s!"{n} fresh names were given only {kvNat kv "distinct" 0} distinct addresses"
+     | _ => st)
   | [h, kind, s, a] =>
     let hh := hostTok h
     let ss := (s.drop 1).toNat?.getD 0
@@ -567,6 +589,7 @@ structure C02Dir where
   lastSendStep : Nat := 0          -- step of the writer's last accepted write / close
   lastReadStep : Nat := 0          -- step of the reader's last read with a non-empty buffer
   lastReadPending : Bool := false  -- … and whether it found nothing
+  graceful : Bool := false         -- the writer went away after consuming the peer's whole stream incl. its FIN: no reset may follow
 
 structure C02St where
   client : Option (Nat × Nat) := none
@@ -576,6 +599,7 @@ structure C02St where
   held : Bool := false
   partitioned : Bool := false
   lastReleaseStep : Nat := 0
+  fins : List (Nat × Nat × Nat) := []   -- (line, source host, destination host) of every delivered FIN
   res : OResult := {}
 
 def C02St.fail (st : C02St) (ln : Nat) (msg : String) : C02St :=
@@ -590,6 +614,14 @@ def c02Upd (st : C02St) (p : C02Dir → Bool) (f : C02Dir → C02Dir) : C02St :=
   { st with dirs := st.dirs.map (fun d => if p d then f d else d) }
 
 def slotTok (t : String) : Nat := (t.drop 1).toNat?.getD 0
+
+/-- the stream towards `who` is finished and fully consumed: its writer closed it, every accepted byte
+    was read, and the FIN had been delivered to `who`'s host before line `ln` (so nothing can be
+    "unread data" when `who` drops its read half, and nothing will arrive later). -/
+def c02GracefulIn (st : C02St) (ln : Nat) (who : Nat × Nat) : Bool :=
+  !st.partitioned && !st.held &&
+  st.dirs.any (fun d => d.reader == who && d.closedByWriter && !d.reset && d.readLog == d.accepted && d.writer.1 != who.1 &&
+    st.fins.any (fun f => f.1 < ln && f.2.1 == d.writer.1 && f.2.2 == who.1))
 
 def c02Step (st : C02St) (x : Nat × List String × List String) : C02St :=
   let (ln, op, obs) := x
@@ -637,7 +669,10 @@ def c02Step (st : C02St) (x : Nat × List String × List String) : C02St :=
             let lrs := fun (d : C02Dir) => if n > 0 then st.step else d.lastReadStep
             let lrp := fun (d : C02Dir) => if n > 0 then false else d.lastReadPending
             c02Upd st (fun d => d.reader == who) (fun d => { d with readLog := log, eof := d.eof || isEof, lastReadStep := lrs d, lastReadPending := lrp d })
-        | ["err", "reset"] => c02Upd st (fun d => d.reader == who) (fun d => { d with reset := true })
+        | ["err", "reset"] =>
+          let st := if d.graceful && !st.partitioned then
+              st.fail ln "connection reset although the peer had consumed the whole stream, seen its FIN arrive and closed gracefully" else st
+          c02Upd st (fun d => d.reader == who) (fun d => { d with reset := true })
         | ["pending"] =>
           if w == "tcp_read" && n > 0 then
             c02Upd st (fun d => d.reader == who) (fun d => { d with lastReadStep := st.step, lastReadPending := true })
@@ -648,14 +683,28 @@ def c02Step (st : C02St) (x : Nat × List String × List String) : C02St :=
     if obs == ["ok"] then c02Upd st (fun d => d.writer == (hostTok h, slotTok s)) (fun d => { d with closedByWriter := true, lastSendStep := st.step }) else st
   | [h, "tcp_dropw", s] =>
     if obs == ["ok"] then c02Upd st (fun d => d.writer == (hostTok h, slotTok s)) (fun d => { d with closedByWriter := true, lastSendStep := st.step }) else st
-  | [h, "tcp_dropr", s] => c02Upd st (fun d => d.reader == (hostTok h, slotTok s)) (fun d => { d with reset := true })
-  | [h, "drop", s] => c02Upd st (fun d => d.reader == (hostTok h, slotTok s) || d.writer == (hostTok h, slotTok s)) (fun d => { d with reset := true })
+  | [h, "tcp_dropr", s] =>
+    let who := (hostTok h, slotTok s)
+    let st := if obs == ["ok"] && c02GracefulIn st ln who then c02Upd st (fun d => d.writer == who) (fun d => { d with graceful := true }) else st
+    c02Upd st (fun d => d.reader == who) (fun d => { d with reset := true })
+  | [h, "drop", s] =>
+    let who := (hostTok h, slotTok s)
+    if obs == ["ok"] && c02GracefulIn st ln who then
+      -- nothing is unread: the drop closes the outgoing direction with a FIN, like a shutdown
+      let st := c02Upd st (fun d => d.writer == who) (fun d => { d with graceful := true, closedByWriter := true, lastSendStep := st.step })
+      c02Upd st (fun d => d.reader == who) (fun d => { d with reset := true })
+    else c02Upd st (fun d => d.reader == who || d.writer == who) (fun d => { d with reset := true })
   | _ => st
 
 def oracleC02 (lines : List String) (modelCov : List String) : OResult :=
   let cfgT := match lines.find? (·.startsWith "CFG ") with | some l => toks l | none => []
   let latSteps := kvNat cfgT "maxlat_ms" 100 / (max 1 (kvNat cfgT "tick_ms" 1)) + 2
-  let st := (opObsPairs lines).foldl c02Step {}
+  let fins := (lines.zipIdx 1).filterMap (fun (l, i) =>
+    match toks l with
+    | ["EV", "delivered", src, dst, "fin"] =>
+      (match addrHost src, addrHost dst with | some a, some b => some (i, a, b) | _, _ => none)
+    | _ => none)
+  let st := (opObsPairs lines).foldl c02Step { fins := fins }
   let res := st.res
   -- delivery half: the link stayed healthy, the writer closed gracefully, every latency has
   -- elapsed, and the reader's latest read (non-empty buffer) found nothing although bytes or the
@@ -683,12 +732,14 @@ structure C12Conn where
   loc : Option String := none
   status : String := "pending"      -- pending | ok | refused | gaveup
   matched : Bool := false
+  doomed : Bool := false            -- its request was still in flight when the link was partitioned both ways
 
 structure C12St where
   synLocs : List (Nat × String) := []     -- line of a tcp_connect OP ↦ source address of the SYN it sent
   conns : List C12Conn := []
   accepts : List (String × String × Bool) := []     -- (local, peer, matched)
   arrivals : List String := []                      -- SYN source addresses in arrival order at the listener
+  synDelivered : List (Nat × String) := []          -- (line, SYN source address) of every delivered SYN
   settled : Bool := false
   res : OResult := {}
 
@@ -704,6 +755,12 @@ def c12SetStatus (st : C12St) (h s : Nat) (f : C12Conn → C12Conn) : C12St :=
     { st with conns := st.conns.mapIdx (fun j c => if j == i then f c else c) }
 
 def c12Result (st : C12St) (ln : Nat) (h s : Nat) (obs : List String) : C12St :=
+  let st := match st.conns.reverse.find? (fun c => c.host == h && c.slot == s) with
+    | some c =>
+      if c.doomed && c.status == "pending" && (obs == ["pending"] || obs.head? == some "ok") then
+        st.fail ln s!"connect from h{h} to {c.dst}: the link was partitioned while its request was in flight, yet it {if obs == ["pending"] then "is still pending" else "succeeded"} instead of being refused"
+      else st
+    | none => st
   match obs with
   | ["ok", loc, peer] =>
     let st := c12SetStatus st h s (fun c => { c with status := "ok", loc := some loc })
@@ -734,6 +791,14 @@ def c12Step (st : C12St) (x : Nat × List String × List String) : C12St :=
         | none => st
       { st with accepts := st.accepts ++ [(loc, peer, false)] }
     | _ => st
+  | ["ctl", "partition", a, b] =>
+    let (x, y) := (hostTok a, hostTok b)
+    { st with conns := st.conns.map (fun c =>
+        match c.loc, addrHost c.dst with
+        | some src, some d =>
+          if c.status == "pending" && ((c.host == x && d == y) || (c.host == y && d == x)) &&
+             !st.synDelivered.any (fun p => p.1 < ln && p.2 == src) then { c with doomed := true } else c
+        | _, _ => c) }
   | ["ctl", "mark", "settled"] => { st with settled := true }
   | [h, "count"] =>
     if st.settled then
@@ -756,7 +821,10 @@ def oracleC12 (lines : List String) : OResult :=
     | ["EV", "send", src, _, "syn"] => (match cur with | some n => ((n, src) :: out, none, ln + 1) | none => (out, none, ln + 1))
     | "OBS" :: _ => (out, none, ln + 1)
     | _ => (out, cur, ln + 1)) ([], none, 1)
-  let st := pairs.foldl c12Step { synLocs := synLocs }
+  let synDelivered := (lines.zipIdx 1).filterMap (fun (l, i) => match toks l with
+    | ["EV", "delivered", src, _, "syn"] => some (i, src)
+    | _ => none)
+  let st := pairs.foldl c12Step { synLocs := synLocs, synDelivered := synDelivered }
   let res := st.res
   -- (1) every successful connect is matched by exactly one accept with mirrored addresses
   let (res, accepts) := st.conns.foldl (fun (acc : OResult × List (String × String × Bool)) c =>
@@ -1070,6 +1138,9 @@ structure C04St where
   lastSyn : Option (String × Nat) := none
   peerReads : List ((Nat × Nat) × (Nat × Bool)) := []  -- (peer,slot) ↦ reads after the deadline: (count, any terminal)
   afterBounce : List Nat := []               -- hosts bounced after a crash (new incarnation)
+  members : List (Nat × String × Nat) := []  -- (host, group ip token, step of the join): multicast memberships
+  mcSends : List (Nat × String × Nat) := []  -- (datagram id, group ip token, step) accepted sends to a group
+  mcRecvd : List (Nat × Nat) := []           -- (host, datagram id) received
   res : OResult := {}
 
 def C04St.fail (st : C04St) (ln : Nat) (msg : String) : C04St :=
@@ -1148,6 +1219,7 @@ def c04Line (st : C04St) (ln : Nat) (l : String) : C04St :=
       let st := if wasUp && assocGet st.stepsSince x ≥ 1 && assocGet st.starts x != 1 then
           st.fail ln s!"h{x}: software was started {assocGet st.starts x} times in one incarnation" else st
       { st with down := if wasUp then st.down ++ [x] else st.down, inCrash := none, curOp := [],
+                members := st.members.filter (·.1 != x),
                 tickers := assocSet st.tickers x 0,
                 crashStep := if wasUp then assocSet st.crashStep x st.step else st.crashStep }
     | ["OP", "ctl", "bounce", h] =>
@@ -1159,6 +1231,7 @@ def c04Line (st : C04St) (ln : Nat) (l : String) : C04St :=
       let late := (st.pendingLate.filter (fun q => q.1 == x && q.2.2 ≤ st.step)).map (fun q => (q.1, q.2.1))
       let lateC := (st.pendingConn.filter (fun q => q.2.1 == x && q.2.2 ≤ st.step)).map (fun q => (q.1, q.2.1))
       { st with down := st.down.filter (· != x), inCrash := none, curOp := [], tickers := assocSet st.tickers x 0,
+                members := st.members.filter (·.1 != x),
                 starts := assocSet st.starts x 0, stepsSince := assocSet st.stepsSince x 0,
                 lateIds := st.lateIds ++ late, lateConn := st.lateConn ++ lateC,
                 pendingLate := st.pendingLate.filter (·.1 != x), pendingConn := st.pendingConn.filter (·.2.1 != x),
@@ -1212,9 +1285,29 @@ def c04Line (st : C04St) (ln : Nat) (l : String) : C04St :=
       match obs with
       | ["ok", _, _, hex] =>
         (match msgId hex with
-         | some id => if st.lateIds.contains (x, id) then st.fail ln s!"datagram {id} that reached h{x} while it was down was handed to its new incarnation" else st
+         | some id =>
+           let st := { st with mcRecvd := st.mcRecvd ++ [(x, id)] }
+           if st.lateIds.contains (x, id) then st.fail ln s!"datagram {id} that reached h{x} while it was down was handed to its new incarnation" else st
+         | none => st)
+      | ["err", "wouldblock"] =>
+        -- the queue is empty: a datagram sent to a group this host has belonged to since before the send,
+        -- and whose latency has certainly elapsed, was never delivered — somebody else's crash or drop
+        -- must not cancel this host's membership
+        (match st.mcSends.find? (fun q => st.members.any (fun m => m.1 == x && m.2.1 == q.2.1 && m.2.2 < q.2.2) &&
+            q.2.2 + st.lat + 1 ≤ st.step && !st.mcRecvd.contains (x, q.1)) with
+         | some q => st.fail ln s!"h{x} is a member of {q.2.1} but never received datagram {q.1} sent to the group"
          | none => st)
       | _ => st
+    | ["OP", h, "udp_join", _, g, _] =>
+      if obs == ["ok"] then { st with members := st.members ++ [(hostTok h, g, st.step)] } else st
+    | ["OP", h, "udp_leave", _, g, _] =>
+      let x := hostTok h
+      { st with members := st.members.filter (fun m => !(m.1 == x && m.2.1 == g)) }
+    | ["OP", h, "drop", _] => let x := hostTok h; { st with members := st.members.filter (·.1 != x) }
+    | ["OP", _, "udp_send", _, dst, hex] =>
+      (match dst.splitOn ":", msgId hex with
+       | [g, _], some id => if g.startsWith "mc" && obs.head? == some "ok" then { st with mcSends := st.mcSends ++ [(id, g, st.step)] } else st
+       | _, _ => st)
     | ["OP", h, bind, _, _] =>
       let x := hostTok h
       if (bind == "udp_bind" || bind == "tcp_bind") && st.afterBounce.contains x && obs == ["err", "addrinuse"] then
